@@ -1139,6 +1139,23 @@ pub fn pristine_disk(data: &[u8], index: usize) -> Result<Disk, String> {
     }
 }
 
+/// The disk model served as a WOFF2 file (null transforms, or the transform-capable encoder).
+pub fn build_wrapped(d: &Disk, trace: &Trace) -> Vec<u8> {
+    match &trace.wrap_opts {
+        Some(o) => {
+            let tables: Vec<(u32, Vec<u8>)> = d.tables.iter().map(|(t, v)| (*t, (**v).clone())).collect();
+            let opts = crate::woff2_build::Woff2Options {
+                transform_glyf: o.transform_glyf,
+                transform_hmtx: o.transform_hmtx,
+                variant: o.variant,
+                avoid: o.avoid,
+            };
+            crate::woff2_build::build_woff2(&tables, d.flavour, &opts).unwrap_or_else(|| disk::build_woff2(d))
+        }
+        None => disk::build_woff2(d),
+    }
+}
+
 pub struct Prepared {
     pub disk: Option<Disk>,
     pub image: Vec<u8>,
@@ -1169,9 +1186,29 @@ pub fn prepare(trace: &Trace, corpus: &mut Corpus) -> Result<Prepared, String> {
             for s in &trace.surgery {
                 surgery::apply(&mut d, s)?;
             }
-            let applied = disk::apply_to_disk(&mut d, &trace.faults);
-            // ProviderErr faults have no file representation
-            let image = disk::build_woff2(&d);
+            let mut applied = disk::apply_to_disk(&mut d, &trace.faults);
+            let mut image = build_wrapped(&d, trace);
+            // faults inside the (transformed) table data block and at file level
+            if trace.rewrap_woff2 {
+                let faults = &trace.faults;
+                let mut inner_applied = vec![false; faults.len()];
+                image = disk::woff2_rewrap(&image, |raw| {
+                    for (i, f) in faults.iter().enumerate() {
+                        if f.targets().first().map(|t| t == "inner").unwrap_or(false) {
+                            inner_applied[i] = disk::apply_bytes(raw, f);
+                        }
+                    }
+                })
+                .ok_or("woff2 rewrap of the wrapped font failed")?;
+                for (i, a) in inner_applied.iter().enumerate() {
+                    applied[i] |= *a;
+                }
+            }
+            for (i, f) in trace.faults.iter().enumerate() {
+                if f.targets().first().map(|t| t == "file").unwrap_or(false) {
+                    applied[i] |= disk::apply_bytes(&mut image, f);
+                }
+            }
             let font_len = image.len();
             Ok(Prepared {
                 disk: None,
